@@ -1,3 +1,35 @@
 package dep
 
 func U() *T { return nil }
+
+// the twin pair of U with the nilabilities exchanged: whichever of the two same-named, same-path objects an
+// importer confuses, one of the marked uses loses its verdict
+func W() *T { return &T{} }
+
+// ... and a pair whose members are both nil-able, so that both are recorded in the facts of their packages
+func X(b bool) *T {
+	if b {
+		return nil
+	}
+	return &T{}
+}
+
+// same-named types with same-named methods, fields and package-level variables in the two packages: equal object
+// paths (Q.M0 / Q.F / GV) relative to different packages
+// nilable(F)
+type Q struct{ F *T }
+
+func (Q) Get(b bool) *T {
+	if b {
+		return nil
+	}
+	return &T{}
+}
+
+func NewQ() *Q {
+	q := &Q{}
+	q.F = nil
+	return q
+}
+
+var GV *T = nil
